@@ -12,7 +12,7 @@ import z3
 from .. import pysym
 from ..common import finish, run_obligations
 from ..hostcheck import claim, run_host_obligation
-from ..pysym import F64, same_value, sym_bool, sym_float, sym_int, sym_real, zbool, zfp, zint
+from ..pysym import F64, same_value, sym_bool, sym_float, sym_int, sym_real, zbool, zfp, zint, zreal
 
 RNE = z3.RNE()
 
@@ -118,17 +118,18 @@ def utils_map_real(hw):
     """Utils.map is the affine map through (from_low,to_low),(from_high,to_high) - exact reals."""
     U = hw.load("Reduino.Utils")
     v, fl, fh, tl, th = (sym_real(n) for n in ("value", "from_low", "from_high", "to_low", "to_high"))
+    Z = zreal
     try:
         r = U.map(v, fl, fh, tl, th)
     except ValueError:
-        claim("rejects only a zero-width source range", fl.z == fh.z)
+        claim("rejects only a zero-width source range", Z(fl) == Z(fh))
         return
-    claim("accepted only for a non-degenerate range", fl.z != fh.z)
-    claim("affine law", (r.z - tl.z) * (fh.z - fl.z) == (v.z - fl.z) * (th.z - tl.z))
+    claim("accepted only for a non-degenerate range", Z(fl) != Z(fh))
+    claim("affine law", (Z(r) - Z(tl)) * (Z(fh) - Z(fl)) == (Z(v) - Z(fl)) * (Z(th) - Z(tl)))
     r_lo = U.map(fl, fl, fh, tl, th)
     r_hi = U.map(fh, fl, fh, tl, th)
-    claim("maps from_low to to_low", r_lo.z == tl.z)
-    claim("maps from_high to to_high", r_hi.z == th.z)
+    claim("maps from_low to to_low", Z(r_lo) == Z(tl))
+    claim("maps from_high to to_high", Z(r_hi) == Z(th))
 
 
 def utils_map_fp(hw):
@@ -405,13 +406,31 @@ def obligations(tier):
     obs.append(("Ultrasonic.int_provider", ultra_int_provider, {}))
     for k in ("int", "float", "bool", "str"):
         obs.append((f"SerialMonitor.write[{k}]", serial_write(k), {}))
+    obs.append(("SerialMonitor.write[symbolic text]", "serial_text_lemma", {"tier": tier}))
     obs.append(("SerialMonitor.write[unconnected]", serial_unconnected, {}))
     obs.append(("SerialMonitor.baud", serial_baud, {}))
     return obs
 
 
+def serial_text_lemma(tier):
+    """CrossHair (z3): the real SerialMonitor.write with a recording backend, for symbolic texts and newlines."""
+    import os
+    from ..crosshair_run import lemma_result
+    from ..lower import VERIF
+    n = 2 if tier == "quick" else 3
+    return lemma_result(
+        "SerialMonitor.write[symbolic text]", os.path.join(VERIF, "vlib", "ch", "serial_lemma.py"),
+        "write_sends_text_plus_newline", {"MAXLEN": n}, 240 if tier == "quick" else 1500,
+        f"text: any string of <= {n} characters over the alphabet {{'a', LF, CR}}, passed as str or through an object's "
+        "__str__; newline: any string of <= 2 characters over the same alphabet",
+        lambda a: (f"SerialMonitor(newline={a[1]!r}).write({a[0]!r}{' via __str__' if a[2] else ''}) does not send exactly "
+                   "str(value)+newline / return str(value)"), "serial-text")
+
+
 def _work(item):
     oid, body, kw = item
+    if body == "serial_text_lemma":
+        return serial_text_lemma(kw["tier"])
     return run_host_obligation(oid, body, describe=(body.__doc__ or oid), **kw)
 
 
@@ -431,13 +450,15 @@ def run(tier, seed, only=None):
         functions_encoded=["Reduino.Core.*", "Reduino.Utils.sleep", "Reduino.Utils.map", "Reduino.Sensors.Button.Button.*",
                            "Reduino.Sensors.Potentiometer.Potentiometer.read", "Reduino.Sensors.Ultrasonic.*",
                            "Reduino.Communication.SerialMonitor.SerialMonitor.__init__/write"],
-        bounds={"Core history length": "2 (quick) / 3,4 (thorough)", "pins": "{7,'7',8} (+ 'A0','9' in the frame law)",
+        bounds={"SerialMonitor text (CrossHair)": "<= 2 (quick) / 3 chars over {'a', LF, CR}; newline <= 2 chars",
+                "Core history length": "2 (quick) / 3,4 (thorough)", "pins": "{7,'7',8} (+ 'A0','9' in the frame law)",
                 "Button signal length": "4 / 6", "ints": "|v|<=2^31", "floats": "finite doubles",
                 "Utils.map affine law": "exact real arithmetic (IEEE rounding outside the claim)"},
         assumptions=["pyserial is replaced by a fake backend object recording write() payloads",
                      "time.sleep is replaced by a recorder", "rendered numbers are opaque tokens: str(v) is compared by value, "
                      "digit formatting is CPython's and not re-verified"],
-        stubs=["serial backend", "time.sleep", "sensor providers = symbolic values"],
+        stubs=["serial backend", "time.sleep", "sensor providers = symbolic values",
+               "math -> Python re-statement of isclose/isinf/isnan/floor/ceil/trunc over the proxies (stock math at replay)"],
     )
 
 
